@@ -273,9 +273,14 @@ func (e *env) pinFor(c, kind string) *api.Pin {
 	p := api.PinWithOpts(ci, opts)
 	switch kind {
 	case "rec", "dir":
-		switch e.rng.Intn(3) {
+		switch e.rng.Intn(4) {
 		case 0:
 			p.ReplicationFactorMin, p.ReplicationFactorMax = -1, -1 // everywhere
+		case 3:
+			// everywhere, with a left-over allocation list that does not name this peer (entries written
+			// by older adders): "allocated to everyone" is decided by the factors
+			p.ReplicationFactorMin, p.ReplicationFactorMax = -1, -1
+			p.Allocations = []peer.ID{e.other}
 		case 1:
 			p.ReplicationFactorMin, p.ReplicationFactorMax = 1, 1
 			p.Allocations = []peer.ID{e.self}
